@@ -220,6 +220,39 @@ def check_reread(obj, conc, ci, c2):
     return fails
 
 
+def _grow(ci, conc, obj):
+    """A legal later edit: a top-level variant gains an architecture and a path for it."""
+    top = sorted(n["path"] for n in obj["nodes"] if len(n["path"]) == 1)[0]
+    v = ci[conc.uid(top)]
+    new = [a for a in ("s390x", "armhfp", "riscv64") if a not in conc.arch.values()][0]
+    v.arches.add(new)
+    getattr(v.paths, conc.cat["c1"])[new] = "%s/%s/grown" % (v.uid, new)
+    getattr(v.paths, conc.cat["c3"])[new] = "%s/%s/grown3" % (v.uid, new)
+
+
+def mutate_and_redump(obj, conc, ci, c2):
+    """Objects that were already written (ci) or read (c2) are edited and written again: the bytes must be those of a
+    freshly built object with the same content (no state of earlier dumps/loads may leak)."""
+    fails = []
+    fresh = build(obj, conc)
+    fresh.compose.id = ci.compose.id
+    _grow(fresh, conc, obj)
+    want = fresh.dumps()
+    for name, o in (("already-written", ci), ("re-read", c2)):
+        try:
+            _grow(o, conc, obj)
+            got = o.dumps()
+        except Exception as exc:
+            fails.append("%s object edited and written again: %s: %s" % (name, type(exc).__name__, exc))
+            continue
+        if got != want:
+            a, b = json.loads(got)["payload"]["variants"], json.loads(want)["payload"]["variants"]
+            diff = [u for u in sorted(set(a) | set(b)) if a.get(u) != b.get(u)]
+            fails.append("%s object edited (new arch + paths) and written again differs from a freshly built object with the same "
+                         "content; variants differing: %s" % (name, diff))
+    return fails
+
+
 def evaluate(case):
     from productmd.composeinfo import ComposeInfo
     conc = Conc(case.get("rot", 0))
@@ -271,4 +304,6 @@ def evaluate(case):
         finally:
             import shutil
             shutil.rmtree(d, ignore_errors=True)
+    if not fails:
+        fails += ["%s: %s" % (what, f) for f in mutate_and_redump(obj, conc, ci, c2)]
     return fails[:6]
